@@ -76,6 +76,14 @@ macro_rules! function {
                 args: &[Value],
             ) -> Result<Type, Error>
             {
+                let expected = [$(stringify!($aname)),+].len();
+                if args.len() != expected {
+                    bail!("{} requires {} argument(s), {} provided",
+                        stringify!($name),
+                        expected,
+                        args.len()
+                    )
+                }
                 let mut targs : Vec<Type> = Vec::with_capacity(args.len());
                 for x in args {
                     let t = x.real_type_of($ctx.clone())?;
